@@ -17,7 +17,7 @@ ID = "C14"
 LEVEL = "exploration"
 ENGINE = "simio"
 TIERS = {
-    "quick": {"runs": 3000, "budget_s": 70, "chunk": 6},
+    "quick": {"runs": 2000, "budget_s": 70, "chunk": 6},
     "thorough": {"runs": 40000, "budget_s": 1500, "chunk": 12},
 }
 RULE = ("one evaluation = one seeded attribute-nested object graph (children 1-3 levels deep, names "
